@@ -6,7 +6,7 @@ open Mutagen Mutagen.OpenFile
 
 def optStr (a : Args) (k : String) : Option String := if a.has k then some (a.str k) else none
 
-/-- thing=none|path:<s>|pathlike:<s>|pathlikebad|obj:<id>:<r>:<w>|ft:<id>:<fn or -> ; kwfn=<s> kwobj=<id>:<r>:<w>
+/-- thing=none|path:<s>|pathlike:<s>|pathlikebad|obj:<id>:<r>:<w>|ft:<id>:<fn or -> ; kwfn=path:<s>|pathlike:<s>|pathlikebad kwobj=<id>:<r>:<w>
     inst=<s> method=0/1 writable=0/1 create=0/1 -/
 def openOp (a : Args) : String :=
   let thing : Thing :=
@@ -21,9 +21,16 @@ def openOp (a : Args) : String :=
     match (a.str "kwobj" "").splitOn ":" with
     | [i, r, w] => some (i.toNat!, r == "1", w == "1")
     | _ => none
+  let kwfn : Option PathArg :=
+    if !a.has "kwfn" then none else
+    match (a.str "kwfn").splitOn ":" with
+    | ["pathlike", p] => some (.pathLike (some p))
+    | ["pathlikebad"] => some (.pathLike none)
+    | ["path", p] => some (.plain p)
+    | _ => some (.plain (a.str "kwfn"))
   let args : OpenFile.Args :=
     { filething := thing
-      filenameKw := optStr a "kwfn"
+      filenameKw := kwfn
       fileobjKw := kwobj
       instanceFilename := optStr a "inst"
       isMethod := (a.nat "method" 1 == 1)
